@@ -523,6 +523,17 @@ scpi_bool_t matchCommand(const char * pattern, const char * cmd, size_t len, int
     const char * cmd_ptr = cmd;
     size_t cmd_len = SCPIDEFINE_strnlen(cmd, len);
 
+    /* every numeric suffix gets the default value, also those of keywords the command never reaches */
+    if (numbers) {
+        size_t i;
+        for (i = 0; pattern[i] != '\0'; i++) {
+            if ((pattern[i] == '#') && (numbers_idx < numbers_len)) {
+                numbers[numbers_idx++] = default_value;
+            }
+        }
+        numbers_idx = 0;
+    }
+
     /* both commands are query commands? */
     if (pattern_ptr[pattern_len - 1] == '?') {
         if (cmd_ptr[cmd_len - 1] == '?') {
